@@ -94,6 +94,7 @@ MInit ==
      termk   |-> "-", termcause |-> "-", termt |-> 0,
      emits   |-> <<>>,
      bg      |-> <<>>,       \* grant log of the shared budget: survives across runs
+     rg      |-> <<>>,       \* times at which retries were granted under the shared budget
      epoch   |-> 0,          \* absolute time of the start of the current run       \* the events the metric/log sinks received in this run
      \* ---- episode level
      fk      |-> "-", fcause |-> "-", fra |-> None, ft |-> 0,
@@ -272,8 +273,14 @@ OnEmit0(c, m, ev) ==
               <<ev.k = m.fk /\ ev.cause = m.fcause /\ ev.err = (m.fcause = "exception")
                   /\ ev.stop = "-" /\ ev.op = c.opname,
                                                      "C14:retry-tags">>,
-              <<ev.ra = m.fra,                       "C14:retry-after-field">> >>)
-        IN  [m1 EXCEPT !.retried = TRUE, !.nretry = @ + 1, !.prevApplied = m.applied,
+              <<ev.ra = m.fra,                       "C14:retry-after-field">>,
+              \* C10 speaks about the retries granted, whatever the budget object was asked:
+              \* each one holds a token, and no window holds more than max of them
+              <<c.budget = None \/ m.consumed = "ok", "C10:retry-granted-without-budget-token">>,
+              <<c.budget = None \/ BudP!WindowBound([max |-> c.budget, W |-> c.bW],
+                                                    Append(m.rg, m.epoch + ev.t)),
+                                                     "C10:retries-granted-exceed-window-bound">> >>)
+        IN  [m1 EXCEPT !.retried = TRUE, !.rg = IF c.budget = None THEN @ ELSE Append(@, m.epoch + ev.t), !.nretry = @ + 1, !.prevApplied = m.applied,
                        !.pollAfterRetry = FALSE]
     ELSE IF ev.name = "success" THEN
         LET m1 == Checks(m, <<
@@ -476,7 +483,7 @@ OnDeliver(c, m, ev) ==
         capStop == m.terminal \in {"MAX_ATTEMPTS_PER_CLASS", "MAX_UNKNOWN_ATTEMPTS",
                                    "MAX_ATTEMPTS_GLOBAL"}
         m2 == V(m1, capStop => Justified(c, m, m.terminal), "C01:cap-reported-without-own-counters")
-    IN  [MInit EXCEPT !.viol = m2.viol, !.bg = m.bg, !.epoch = m.epoch + ev.t + ev.gap]
+    IN  [MInit EXCEPT !.viol = m2.viol, !.bg = m.bg, !.rg = m.rg, !.epoch = m.epoch + ev.t + ev.gap]
 
 (***************************************************************************)
 (* events the monitors do not know: sink disparity etc.                    *)
